@@ -12,12 +12,19 @@ RULE = ("every directed mixed graph CYC(n) (any subset of the n(n-1) directed an
         "returned graph is edited and the call repeated, also on G.copy(); frozenset arguments) and a CUSTOM edge-type names stream "
         "for acyclification (beyond the property's quantifier); the empty graph; every n<=2 and a third of the n=3 graphs and a third of the random ones also as pywhy_graphs.ADMG "
         "instance / three-layer MixedEdgeGraph with an edge-less undirected layer; query sets checked for mutation; "
+        "identity-hashed label objects (graphs.labeler family 'obj'); a preceding call on an unrelated graph (cross-call contamination); "
+        "a DEEP stream of three chains of 75-150 two-cycles (150-300 nodes) run with the recursion limit lowered to depth+120, whose "
+        "expected edges come from an independent Python reference of the characterisation (the cubic Coq model is not run there) and "
+        "whose expected sigma answers are known by construction; "
         "distinct by (canonical graph, layers, repeat, names, object kind); non-trivial = the graph has a directed cycle "
         "and the queries contain a sigma-separated and a sigma-connected one")
 EXHAUSTIVE = {"quick": "all CYC(n) n<=3, all disjoint X,Y,Z (n=4: 1200 sampled)", "thorough": "all CYC(n) n<=3, all disjoint X,Y,Z (n=4: 50000 sampled)"}
 TRUSTED = ["networkx strongly_connected_components / complete_graph and their yield order taken at face value",
            "m_separated (property C01) is what sigma_separated delegates to"]
-ASSUMPTIONS = ["default edge-type names", "only directed and bidirected layers (the property's domain)", "int labels (label families: C15)"]
+ASSUMPTIONS = ["default edge-type names", "only directed and bidirected layers (the property's domain)", "int labels (label families: C15)",
+               "no self-loops: a directed mixed graph has edges between DISTINCT nodes (Mooij & Claassen 2020, Def. of DMG; Forre & Mooij "
+               "2017); wf of the formal graph excludes them and acyclification/sigma_separated are not judged on graphs with v -> v "
+               "(HEAD keeps a self-loop, after which m_separated raises; recorded as outside the claimed domain)"]
 LEVEL_TEXT = ("ALL clauses about the formal graph are Coq theorems for ALL directed mixed graphs (any cycles, any bidirected edges): "
               "acy_nodes_edges (the model's directed / bidirected edges are exactly the property's characterisation, with 'strongly "
               "connected component' = mutual directed reachability by definition), acy_acyclic, acy_idempotent_on_acyclic, and the sigma "
@@ -157,6 +164,25 @@ def gen_cases(tier, rng):
             yield {"kind": "kinds%d" % n, "g": g, "layers": ["directed", "bidirected"], "qs": queries(g["V"]), "oracle": True,
                    "okind": ("admg", "mixed3")[code % 2],
                    **({"rep": rng.randrange(1 << 30)} if code % 4 == 0 and (g["D"] or g["B"]) else {})}
+    # DEEP stream: chains of 2-cycles {2i,2i+1}, 2i+1 -> 2i+2, a few bidirected edges between early components and side
+    # branches; run with the recursion limit lowered to depth + 120; expected edges from reference_acy (Python), expected
+    # sigma answers known by construction: the exit node 2m+1 of the middle component blocks, its entry node 2m does not
+    for L in (150, 220, 300):
+        k = L // 2
+        D = [[2 * i, 2 * i + 1] for i in range(k)] + [[2 * i + 1, 2 * i] for i in range(k)] + \
+            [[2 * i + 1, 2 * i + 2] for i in range(k - 1)] + [[2 * i, L + i // 10] for i in range(0, k, 10)]
+        B = [[2, 6], [1, 8]]
+        g = gr.G(range(L + k // 10 + 1), D=D, B=B)
+        m = k // 2
+        qs = [[[0], [L - 1], []], [[0], [L - 1], [2 * m + 1]], [[0], [L - 1], [2 * m]], [[L - 1], [0], [2 * m + 1, L]]]
+        yield {"kind": "deep", "g": g, "layers": ["directed", "bidirected"], "qs": qs, "expect_sigma": [0, 1, 0, 1], "deep": True,
+               "oracle": False, "_reclimit": 120, "okind": ("mixed", "admg", "mixed3")[L % 3]}
+    # IDENTITY-HASHED LABEL OBJECTS (graphs.labeler family "obj")
+    for n in (2, 3):
+        for code in range(0, n_codes(n), 5):
+            g = cyc_from_code(n, code)
+            yield {"kind": "obj%d" % n, "g": g, "layers": ["directed", "bidirected"], "qs": queries(g["V"]), "oracle": True,
+                   "_lab": "obj", **({"rep": rng.randrange(1 << 30)} if code % 10 == 0 and (g["D"] or g["B"]) else {})}
     # the design's witness and its bidirected sibling, always
     for g in (gr.G(range(4), D=[[0, 1], [1, 0], [1, 2], [2, 3], [3, 2]]),
               gr.G(range(4), D=[[0, 1], [1, 0], [2, 3], [3, 2]], B=[[1, 2]])):
@@ -182,17 +208,58 @@ def gen_cases(tier, rng):
             c.update(kind=c["kind"] + "-rep", rep=rng.randrange(1 << 30))
         elif i % 8 == 1:
             c.update(kind=c["kind"] + "-names", names=rng.choice(NAME_SETS), qs=[])
+        if i % 5 == 0:
+            c.update(pre=True)
+        if i % 7 == 0 and "names" not in c:
+            c.update(_lab="obj")
         if "names" not in c and layers == ["directed", "bidirected"] and i % 3 == 0:
             c.update(okind=("admg", "mixed3")[(i // 3) % 2])
         yield c
 
 
 def encode(case):
+    if case.get("deep"):
+        return [2, gr.enc(case["g"]), []]
     return [0 if case["oracle"] else 1, gr.enc(case["g"]), case["qs"]]
+
+
+def reference_acy(g):
+    """independent Python reference of the property's edge characterisation (used for DEEP cases only, where the cubic Coq
+    model is too slow): component = mutual reachability; i->j iff comp differs and i has an edge into comp(j); i<->j iff same
+    component or a bidirected edge joins the components"""
+    ch = {v: [] for v in g["V"]}
+    for a, b in g["D"]:
+        ch[a].append(b)
+    reach = {}
+    for v in g["V"]:
+        seen, st = {v}, [v]
+        while st:
+            u = st.pop()
+            for w in ch[u]:
+                if w not in seen:
+                    seen.add(w)
+                    st.append(w)
+        reach[v] = seen
+    comp = {v: frozenset(w for w in reach[v] if v in reach[w]) for v in g["V"]}
+    D = sorted({(i, j) for i, k in map(tuple, g["D"]) for j in comp[k] if comp[i] != comp[j]})
+    B = set()
+    for v in g["V"]:
+        for w in comp[v]:
+            if v < w:
+                B.add((v, w))
+    for a, b in g["B"]:
+        for i in comp[a]:
+            for j in comp[b]:
+                if i != j:
+                    B.add((min(i, j), max(i, j)))
+    return [list(e) for e in D], [list(e) for e in sorted(B)]
 
 
 def decode(case, v):
     graph, acyc, res = v
+    if case.get("deep"):
+        D, B = reference_acy(case["g"])
+        return {"V": graph[0], "D": D, "B": B, "acyclic": acyc, "sigma": list(case["expect_sigma"])}
     out = {"V": graph[0], "D": graph[1], "B": graph[2], "acyclic": acyc, "sigma": [r[0] for r in res]}
     if case["oracle"]:
         out["msep_dec_acy"] = [r[1] for r in res]
@@ -266,6 +333,13 @@ def run_impl(case):
                 res[-1] = "query-sets-mutated"
         return res
 
+    if case.get("pre"):
+        # CROSS-CALL CONTAMINATION: first use the API on an unrelated graph (other nodes, no bidirected layer)
+        import networkx as nx
+        import pywhy_graphs.networkx as pywhy_nx
+        A = pywhy_nx.MixedEdgeGraph(graphs=[nx.DiGraph([("p", "q"), ("q", "p"), ("q", 0), (0, 1), (1, 0)])], edge_types=["directed"])
+        acyclification(A)
+        sigma_separated(A, {"p"}, {1}, {"q"})
     if rep is None:
         M, lab, inv, dn, bn = build(g, case)
     else:
